@@ -155,7 +155,12 @@ def inject(rng):
     kind = rng.choice(["unknown-start", "unterminated-string", "unterminated-backtick", "invalid-escape", "invalid-escape-multiline",
                        "undefined-variable", "undefined-in-body", "unknown-function", "unknown-dependency", "duplicate-recipe",
                        "duplicate-variable", "unexpected-token", "unknown-setting", "unknown-attribute", "arity", "mismatched",
-                       "unpaired-cr", "mixed-whitespace", "unexpected-closing"])
+                       "unpaired-cr", "mixed-whitespace", "unexpected-closing",
+                       "duplicate-parameter", "duplicate-set", "duplicate-unexport", "duplicate-attribute", "expected-keyword",
+                       "attribute-arity", "parameter-after-variadic", "required-after-default", "dependency-arity",
+                       "backtick-shebang", "unterminated-interpolation", "unicode-range", "unicode-empty", "unicode-length",
+                       "unicode-delimiter", "unicode-character", "unicode-unterminated", "shell-expansion",
+                       "unexpected-character", "include", "inconsistent-whitespace"])
     if kind == "unknown-start":
         return dict(kind=kind, head=pre_line, token=rng.choice(["~", "\u00e9", "\u4e2d", "\U0001F600", "%", "^", ";", "\u00a0"]), tail=" 'a'" + post_line, error="UnknownStartOfToken")
     if kind == "unterminated-string":
@@ -197,6 +202,44 @@ def inject(rng):
         return dict(kind=kind, head="x := '%s' " % uni(rng), token="\r", tail="y", error="UnpairedCarriageReturn")
     if kind == "mixed-whitespace":
         return dict(kind=kind, head="rr:\n", token=rng.choice([" \t", "\t ", "  \t "]), tail="echo %s" % uni(rng), error="MixedLeadingWhitespace")
+    if kind == "duplicate-parameter":
+        return dict(kind=kind, head="rr a b=\"%s\" " % uni(rng).replace('"', ""), token="a", tail="='z':\n\techo", error="DuplicateParameter")
+    if kind == "duplicate-set":
+        return dict(kind=kind, head="set quiet\n# %s\nset " % uni(rng), token="quiet", tail="", error="DuplicateSet")
+    if kind == "duplicate-unexport":
+        return dict(kind=kind, head="unexport AA\n# %s\nunexport " % uni(rng), token="AA", tail="", error="DuplicateUnexport")
+    if kind == "duplicate-attribute":
+        return dict(kind=kind, head="[private]\n[", token="private", tail="]\nrr:\n\techo", error="DuplicateAttribute")
+    if kind == "expected-keyword":
+        return dict(kind=kind, head="set quiet := ", token="maybe", tail="", error="ExpectedKeyword")
+    if kind == "attribute-arity":
+        return dict(kind=kind, head="[", token="group", tail="]\nrr:\n\techo", error="AttributeArgumentCountMismatch")
+    if kind == "parameter-after-variadic":
+        return dict(kind=kind, head="rr a='%s' +b " % uni(rng), token="c", tail=":\n\techo", error="ParameterFollowsVariadicParameter")
+    if kind == "required-after-default":
+        return dict(kind=kind, head="rr a='%s' " % uni(rng), token="b", tail=":\n\techo", error="RequiredParameterFollowsDefaultParameter")
+    if kind == "dependency-arity":
+        return dict(kind=kind, head="tt a:\n\techo %s\nrr: (" % uni(rng), token="tt", tail=")", error="DependencyArgumentCountMismatch")
+    if kind == "backtick-shebang":
+        return dict(kind=kind, head=pre_line, token="`#!/bin/sh %s`" % uni(rng).replace("`", ""), tail=post_line, error="BacktickShebang")
+    if kind == "unterminated-interpolation":
+        ind = rng.choice(["\t", "  "])
+        return dict(kind=kind, head="rr:\n%secho %s " % (ind, uni(rng, 3)), token="{{", tail=" 'a' + %s" % rng.choice(["'b'", "x"]), error="UnterminatedInterpolation")
+    if kind.startswith("unicode-"):
+        esc = {"unicode-range": "\\u{110000}", "unicode-empty": "\\u{}", "unicode-length": "\\u{1234567}", "unicode-delimiter": "\\ux",
+               "unicode-character": "\\u{zz}", "unicode-unterminated": "\\u{12"}[kind]
+        err = {"unicode-range": "UnicodeEscapeRange", "unicode-empty": "UnicodeEscapeEmpty", "unicode-length": "UnicodeEscapeLength",
+               "unicode-delimiter": "UnicodeEscapeDelimiter", "unicode-character": "UnicodeEscapeCharacter",
+               "unicode-unterminated": "UnicodeEscapeUnterminated"}[kind]
+        return dict(kind=kind, head=pre_line, token="\"%s%s%s\"" % (uni(rng), esc, uni(rng) if kind != "unicode-unterminated" else ""), tail=post_line, error=err)
+    if kind == "shell-expansion":
+        return dict(kind=kind, head=pre_line + "x", token="'$C12_SURELY_UNSET_%s'" % rng.choice(["A", "B"]), tail=post_line, error="ShellExpansion")
+    if kind == "unexpected-character":
+        return dict(kind=kind, head=pre_line + "!", token=rng.choice(["x", "\u00e9", "\u4e2d", " "]), tail="'a'", error="UnexpectedCharacter")
+    if kind == "include":
+        return dict(kind=kind, head="", token="!", tail="include 'f'", error="Include")
+    if kind == "inconsistent-whitespace":
+        return dict(kind=kind, head="rr:\n\techo %s\n" % uni(rng), token="  ", tail="echo", error="InconsistentLeadingWhitespace")
     raise AssertionError(kind)
 
 
